@@ -1,6 +1,6 @@
 """C06 -- rule-breaking documents are rejected with the error belonging to the rule.
 
-GenFault.tla injects exactly one rule violation (13 kinds) into a well-formed generated document,
+GenFault.tla injects exactly one rule violation (14 kinds) into a well-formed generated document,
 at a seed-dependent position and in a seed-dependent spelling; TLC checks at design level that the
 operational parser model answers with the rule's error class (Ruled).  Every fault document is
 printed in several surface forms and parsed by /repo; TLC compares the observed outcome (an
@@ -13,7 +13,7 @@ from . import core, docs, doccheck
 
 
 def main(argv: List[str]) -> int:
-    rep = core.Report('C06', 'TLC-generated single-fault documents (GenFault.tla, 13 fault kinds x position x spelling) parsed by '
+    rep = core.Report('C06', 'TLC-generated single-fault documents (GenFault.tla, 14 fault kinds x position x spelling) parsed by '
                              '/repo; outcome class compared by TLC with Doc!ParseDoc; Ruled checked at design level')
     rep.rule = ('case = (base document seed, fault kind, surface form); distinct by that triple; every case is '
                 'non-trivial (exactly one injected violation)')
